@@ -76,6 +76,14 @@ lazy_static! {
     };
 }
 
+/// Widths (in bytes) of the operands of an opcode
+pub fn operand_widths(op: Opcode) -> &'static [usize] {
+    match DEFINITIONS.get(&op) {
+        Some(def) => def.operand_widths,
+        None => &[],
+    }
+}
+
 pub fn lookup(op: u8) -> Result<&'static Definition, String> {
     match DEFINITIONS.get(&Opcode::from(op)) {
         Some(def) => Ok(def),
